@@ -4,6 +4,7 @@ import (
 	"bufio"
 	"crypto/tls"
 	"encoding/binary"
+	"errors"
 	"fmt"
 	"io"
 	"net"
@@ -35,6 +36,10 @@ type NTSKEServer struct {
 	conns  []*NTSKEConn
 	script NTSKEScript
 	wg     sync.WaitGroup
+	// HandshakeGate, if set, is asked for every ClientHello (numbered from 1); a non-nil channel
+	// stalls that handshake until the channel is closed and then aborts it.
+	HandshakeGate func(n int) <-chan struct{}
+	hellos        int
 }
 
 func NewNTSKEServer(addr netip.AddrPort, alpns []string, script NTSKEScript) (*NTSKEServer, error) {
@@ -48,6 +53,16 @@ func NewNTSKEServer(addr netip.AddrPort, alpns []string, script NTSKEScript) (*N
 	s := &NTSKEServer{ALPNs: alpns, script: script}
 	cfg := &tls.Config{Certificates: []tls.Certificate{cert}, MinVersion: tls.VersionTLS13}
 	cfg.GetConfigForClient = func(*tls.ClientHelloInfo) (*tls.Config, error) {
+		s.mu.Lock()
+		s.hellos++
+		n, gate := s.hellos, s.HandshakeGate
+		s.mu.Unlock()
+		if gate != nil {
+			if ch := gate(n); ch != nil {
+				<-ch
+				return nil, errors.New("scripted handshake abort")
+			}
+		}
 		s.mu.Lock()
 		defer s.mu.Unlock()
 		c := &tls.Config{Certificates: []tls.Certificate{cert}, MinVersion: tls.VersionTLS13, NextProtos: append([]string{}, s.ALPNs...)}
@@ -103,7 +118,7 @@ func exportKeys(cs tls.ConnectionState) (c2s, s2c []byte, err error) {
 func (s *NTSKEServer) handle(c *tls.Conn) {
 	defer s.wg.Done()
 	defer c.Close()
-	_ = c.SetDeadline(time.Now().Add(5 * time.Second))
+	_ = c.SetDeadline(time.Now().Add(15 * time.Second))
 	rec := &NTSKEConn{}
 	s.mu.Lock()
 	rec.ID = len(s.conns) + 1
